@@ -133,8 +133,12 @@ def coherent_dedispersion(z, DM, /, *, ref_freq=None, chirp=None):
     chirp = chirp[(slice(None),) * chirp.ndim + (None,) * (z.ndim - chirp.ndim)]
     x = pb.fft.ifft(pb.fft.fft(z.data, axis=0) * chirp, axis=0)
 
-    delay_top = DM.sample_delay(z.max_freq, ref_freq, z.sample_rate)
-    delay_bot = DM.sample_delay(z.min_freq, ref_freq, z.sample_rate)
+    # Edges of the frequencies actually present: the outermost channel centres
+    # plus/minus half a channel. (For an even number of channels aligned
+    # 'bottom' or 'top' that is not center_freq -/+ bandwidth / 2.)
+    freqs = z.channel_freqs
+    delay_top = DM.sample_delay(freqs.max() + z.chan_bw / 2, ref_freq, z.sample_rate)
+    delay_bot = DM.sample_delay(freqs.min() - z.chan_bw / 2, ref_freq, z.sample_rate)
 
     start = math.ceil(-min(0, delay_top, delay_bot))
     stop = max(start, x.shape[0] - math.ceil(+max(0, delay_top, delay_bot)))
